@@ -42,7 +42,7 @@ func runFamily(r *Reporter, prop string, runs []famRun, configs func(c *ProgCase
 			for _, cfg := range configs(c) {
 				obs := Observe(c, cfg)
 				r.addTraces(1)
-				r.countObs(matchFinding(prop, c.Tags, &cfg, "") == "")
+				r.countObs(matchFinding(prop, c.TagsFor(cfg, nil), &cfg, "") == "")
 				if obs.Symptom() == "" {
 					continue
 				}
@@ -54,8 +54,8 @@ func runFamily(r *Reporter, prop string, runs []famRun, configs func(c *ProgCase
 					continue
 				}
 				sym := obs.Symptom()
-				desc := fmt.Sprintf("%s on %s: %s [%s]", oneLine(c.Prog), cfg, what, strings.Join(c.Tags, ","))
-				if id := matchFinding(prop, c.Tags, &cfg, sym); id != "" {
+				desc := fmt.Sprintf("%s on %s: %s [%s]", oneLine(c.Prog), cfg, what, strings.Join(c.TagsFor(cfg, &obs), ","))
+				if id := matchFinding(prop, c.TagsFor(cfg, &obs), &cfg, sym); id != "" {
 					r.KnownOn(id, cfg.String(), desc)
 					continue
 				}
